@@ -201,10 +201,12 @@ def user_table(rng, builtin_keys):
         used.add(k.lower())
         r = rng.random()
         tag = 'u%s' % ('abcdefgh'[i] if i < 8 else 'x' + 'abcdefghijklmnopqrstuvwxyz'[i % 26] + 'abcdefghijklmnopqrstuvwxyz'[i // 26])
+ 
+        pre = rng.choice(['vp-', 'vp-', '--vp-', '-webkit-vp-', 'vp--', '-vp-'])      # custom properties and vendor prefixes are property names too
         if r < 0.35:
-            v = 'vp-%s:%s' % (tag, '|'.join(rng.sample(['foo', 'bar', 'baz-qux', '${1:ph}', '10px', 'a b', '#fc0'], rng.randint(1, 3))))
+            v = pre + '%s:%s' % (tag, '|'.join(rng.sample(['foo', 'bar', 'baz-qux', '${1:ph}', '10px', 'a b', '#fc0'], rng.randint(1, 3))))
         elif r < 0.55:
-            v = 'vp-%s' % tag
+            v = pre + tag
         elif r < 0.8:
             ph = ['x', ':hover', '::before', 'a:b', 'http://x.y/z', '-x', '#fc0', '1.5', 'p q', '.c', '!', '0', 'X', '@m']
             v = rng.choice(['raw %s ${1:%s} body ${2}', '%s${1:%s} {\n\t${2}\n}', 'raw %s ${2:%s} then ${1}', 'raw %s${1:%s}${2:z}']) % (tag, rng.choice(ph))
